@@ -77,6 +77,15 @@ def internal_unit_extra(res, meta):
     if not isinstance(obj, dict):
         return None
     rest = {k: v for k, v in obj.items() if k != "zz_added_member"}
+    # KF-C05-2: wrapper of an adjacently tagged enum (closedness of the wrapper object is not represented)
+    for it in res.get("facts") or []:
+        if it["kind"] == "enum":
+            sd = it.get("serde") or {}
+            if "tag" in sd and "content" in sd and sd.get("deny_unknown_fields") is not True and \
+                    sd["tag"] in rest and set(rest) <= {sd["tag"], sd["content"]} and isinstance(rest[sd["tag"]], str):
+                names = [(v.get("serde") or {}).get("rename") or v["ident"] for v in it["variants"]]
+                if rest[sd["tag"]] in names:
+                    return "adjacent_wrapper_closedness_dropped"
     if len(rest) != 1:
         return None
     (tag, val), = rest.items()
